@@ -102,7 +102,16 @@ class NarwhalsMaterializer(FormulaMaterializer):
         if drop_rows:
             values = drop_nulls(values, indices=drop_rows)
         if nw.dependencies.is_narwhals_series(values):
-            values = values.to_pandas()
+            # Prefer the native conversion: it preserves the declared category
+            # order (and unobserved categories / nulls) of dictionary-encoded
+            # columns, which `narwhals.Series.to_pandas` flattens to strings.
+            native = nw.to_native(values)
+            if isinstance(native, pandas.Series):
+                values = native
+            elif hasattr(native, "to_pandas"):
+                values = native.to_pandas()
+            else:  # pragma: no cover
+                values = values.to_pandas()
 
         return as_columns(
             encode_contrasts(
